@@ -814,6 +814,7 @@ pub fn arch(c: &OpCase) -> ZkStdLibArch {
         "ff" | "big" => crate::ops_ff::arch(c),
         "ec" => crate::ops_ecc::arch(c),
         "h" => crate::ops_hash::arch(c),
+        "b64" => crate::ops_parse::b64_arch(c),
         "pi" => crate::ops_pi::arch(c),
         _ => ZkStdLibArch { nr_pow2range_cols: c.cols, ..ZkStdLibArch::default() },
     }
@@ -825,6 +826,7 @@ pub fn body<L: Layouter<F>>(c: &OpCase, s: &ZkStdLib, l: &mut L, w: &[Value<F>],
         "ff" | "big" => crate::ops_ff::body(c, s, l, w, wb),
         "ec" => crate::ops_ecc::body(c, s, l, w, wb),
         "h" => crate::ops_hash::body(c, s, l, w),
+        "b64" => crate::ops_parse::b64_body(c, s, l, w),
         "pi" => crate::ops_pi::body(c, s, l, w, wb),
         _ => {
             for p in &native_body(c, s, l, w)? {
@@ -855,6 +857,16 @@ pub fn judge(c: &OpCase, publics: &[Fq]) -> Judgement {
                 Some(m) => Judgement::NonCanonicalExposure(m),
                 None => Judgement::Holds,
             },
+            Ok(false) => Judgement::Inadmissible,
+            Err(e) => Judgement::Wrong(e),
+        },
+        "rx" => match crate::ops_parse::rx_check(c, publics) {
+            Ok(true) => Judgement::Holds,
+            Ok(false) => Judgement::Inadmissible,
+            Err(e) => Judgement::Wrong(e),
+        },
+        "b64" => match crate::ops_parse::b64_check(c, publics) {
+            Ok(true) => Judgement::Holds,
             Ok(false) => Judgement::Inadmissible,
             Err(e) => Judgement::Wrong(e),
         },
@@ -897,6 +909,8 @@ pub fn expected_admissible(c: &OpCase) -> bool {
         "ec" => crate::ops_ecc::expected_admissible(c),
         "h" => crate::ops_hash::expected_admissible(c),
         "ng" => crate::ops_ng::expected_admissible(c),
+        "rx" => crate::ops_parse::rx_expected_admissible(c),
+        "b64" => crate::ops_parse::b64_expected_admissible(c),
         _ => {
             let ins: Vec<Fq> = c.ins.iter().map(|x| x.0).collect();
             native_eval(c, &ins).is_some()
@@ -920,7 +934,9 @@ pub fn all_ops() -> Vec<String> {
 }
 
 pub fn gen_case(rng: &mut Prng, op: &str) -> OpCase {
-    if op.starts_with("ng.") {
+    if op.starts_with("b64.") {
+        crate::ops_parse::b64_gen_case(rng, op)
+    } else if op.starts_with("ng.") {
         crate::ops_ng::gen_case(rng, op)
     } else if op.starts_with("h.") {
         crate::ops_hash::gen_case(rng, op)
@@ -939,6 +955,18 @@ pub fn gen_case(rng: &mut Prng, op: &str) -> OpCase {
 pub fn input_class(c: &OpCase) -> String {
     if (c.op == "ec.k256.mul_by_constant" || c.op == "ec.bls.mul_by_constant") && c.bins.first().map(|s| s.as_str()) == Some("0") && c.bigp(0).bits() > 128 {
         return "[identity base, constant above 128 bits]".into();
+    }
+    String::new()
+}
+
+/// A qualifier derived from the public values of an accepted execution, for
+/// the same purpose as `input_class`.
+pub fn published_class(c: &OpCase, publics: &[Fq]) -> String {
+    if c.op == "b64.url" {
+        let n = (c.p[1] as usize).min(publics.len());
+        if publics[..n].iter().any(|b| *b == Fq::from(b'+' as u64) || *b == Fq::from(b'/' as u64)) {
+            return "[base64url input containing '+' or '/']".into();
+        }
     }
     String::new()
 }
